@@ -375,12 +375,9 @@ func bWalkShape(root *Root, st Persist, model map[int]int) string {
 		if len(n.Link) != len(n.Key)+1 || len(n.Value) != len(n.Key) {
 			return fmt.Sprintf("node %v has %d keys, %d values, %d links", link, len(n.Key), len(n.Value), len(n.Link))
 		}
-		if len(n.Key) == 0 {
-			if top && root.Size == 0 {
-				// the empty tree
-			} else if n.Link[0] == nil {
-				return fmt.Sprintf("entry-less node %v without a child is stored", link)
-			}
+		if len(n.Key) == 0 && n.Link[0] == nil {
+			// also for the empty tree: it has no nodes at all (its root link is nil)
+			return fmt.Sprintf("entry-less node %v without a child is stored", link)
 		}
 		prev := lo
 		for i, k := range n.Key {
